@@ -11,6 +11,7 @@ Reason(e) ==
          IF e.res # "ok" \/ e.wire_res # "ok" THEN "offset_panic"
          ELSE IF ~e.present \/ ~e.wire_present THEN "offset_absent"
          ELSE IF ~DurEq(e.back, e.d, OffsetTol) THEN "offset_off"
+         ELSE IF ~e.asked_again_same THEN "asking_for_the_offset_changes_it"
          ELSE IF ~DurEq(e.wire_back, e.d, OffsetTol) THEN "offset_off_after_wire"
          ELSE IF e.reuse_res # "ok" THEN "offset_panic"
          ELSE IF ~e.reuse_present \/ ~DurEq(e.reuse_back, e.d, OffsetTol) THEN "offset_off_in_constructed_receiver"
